@@ -1,17 +1,19 @@
 """Solver access: z3 (python API) first; unknowns are re-run on the z3 4.8.12
 and cvc5 binaries through an SMT-LIB dump."""
 import os
+import shutil
 import subprocess
 import tempfile
 import time
 import z3
 
-STATS = {'queries': 0, 'time': 0.0, 'by_backend': {}, 'unknown': 0, 'feas': 0, 'feas_time': 0.0}
+STATS = {'queries': 0, 'time': 0.0, 'by_backend': {}, 'unknown': 0, 'feas': 0, 'feas_time': 0.0,
+         'cross_checked': 0, 'cross_agree': 0, 'cross_undecided': 0, 'cross_disagree': 0}
 
 
 def timeout_ms():
     tier = os.environ.get('VERIF_TIER', 'quick')
-    return int(os.environ.get('PYVC_TIMEOUT_MS', '60000' if tier == 'thorough' else '10000'))
+    return int(os.environ.get('PYVC_TIMEOUT_MS', '90000' if tier == 'thorough' else '25000'))
 
 
 def _run_external(smt2, binary, args, timeout_s):
@@ -164,6 +166,49 @@ def _solve(assertions, timeout, simple=False):
     return s, s.check()
 
 
+def _confirm_sat(s):
+    """A `sat` of the API solver on a query with quantifiers / lambdas is only believed when a second solver process agrees
+    (met during the build: the API answered sat within its time slice on a query both z3 binaries decide unsat).
+    Returns 'sat', 'unsat' (with the answering binary) or 'unknown'."""
+    try:
+        smt2 = s.to_smt2()
+    except Exception:
+        return 'unknown', None
+    answers = []
+    for name, binary in (('z3-4.8.12', '/usr/bin/z3'), ('z3-cli-5.1', shutil.which('z3-new') or '')):
+        if not binary or not os.path.exists(binary):
+            continue
+        first = _run_external(smt2, binary, ['-T:20'], 20)
+        answers.append((name, first))
+        if first == 'unsat':
+            STATS['sat_overruled'] = STATS.get('sat_overruled', 0) + 1
+            return 'unsat', name
+    if any(a == 'sat' for _, a in answers):
+        return 'sat', None
+    return 'unknown', None
+
+
+def _cross_check(s):
+    """thorough tier: an `unsat` of the z3 5.x API is re-asked of the independently built z3 4.8.12 binary on the same
+    SMT-LIB text.  Returns False only on a definite disagreement (`sat`)."""
+    if os.environ.get('VERIF_TIER') != 'thorough' or os.environ.get('PYVC_CROSSCHECK') == '0' or not os.path.exists('/usr/bin/z3'):
+        return True
+    try:
+        smt2 = s.to_smt2()
+    except Exception:
+        return True
+    STATS['cross_checked'] += 1
+    first = _run_external(smt2, '/usr/bin/z3', ['-T:20'], 20)
+    if first == 'unsat':
+        STATS['cross_agree'] += 1
+    elif first == 'sat':
+        STATS['cross_disagree'] += 1
+        return False
+    else:
+        STATS['cross_undecided'] += 1
+    return True
+
+
 def prove(assumptions, goal, timeout=None, want_model=True):
     """Returns (verdict, backend, model|reason, seconds): verdict in 'proved', 'refuted', 'unknown'.
     A conjunction is proved conjunct by conjunct; named definitions (sequence lambdas, opaque invariants) are
@@ -251,7 +296,7 @@ def _prove1(assumptions, goal, timeout):
     if all_defs:
         w, rw = _solve(assumptions + light + [neg], min(timeout, 1500))
         if rw == z3.unsat:
-            return 'proved', backend, None
+            return ('proved', backend, None) if _cross_check(w) else ('unknown', 'solver-disagreement', ('z3 4.8.12 answers sat', None))
         if rw == z3.sat:
             weak_model = w.model()
         goal_defs = collect_defs([goal])
@@ -261,13 +306,19 @@ def _prove1(assumptions, goal, timeout):
             closure = collect_defs([d[1] for d in staged] + [goal])
             w, rw = _solve(assumptions + light + [d[1] for d in closure] + [neg], min(timeout, 5000))
             if rw == z3.unsat:
-                return 'proved', backend, None
+                return ('proved', backend, None) if _cross_check(w) else ('unknown', 'solver-disagreement', ('z3 4.8.12 answers sat', None))
     s, r = _solve(assumptions + light + [d[1] for d in all_defs] + [neg], timeout)
     if r == z3.unsat:
-        return 'proved', backend, None
+        return ('proved', backend, None) if _cross_check(s) else ('unknown', 'solver-disagreement', ('z3 4.8.12 answers sat', None))
+    reason = None
     if r == z3.sat:
-        return 'refuted', backend, s.model()
-    reason = s.reason_unknown()
+        c, who = _confirm_sat(s)
+        if c == 'sat':
+            return 'refuted', backend, s.model()
+        if c == 'unsat':
+            return 'proved', who, None
+        reason = 'sat answer of the API solver not confirmed by a second solver process'
+    reason = reason or s.reason_unknown()
     # counterexample search over small pre-states: the quantified invariants of the entry state become trivial when
     # the dictionaries / lists of the pre-state are empty or singletons.  A model found here satisfies the complete
     # (exact) formula, so it is a genuine refutation.
@@ -289,7 +340,14 @@ def _prove1(assumptions, goal, timeout):
     for shape in ([[]] if inputs else []) + shapes:
         s2, r2 = _solve(full + shape, min(timeout, 8000))
         if r2 == z3.sat:
-            return 'refuted', backend + '+small-prestate', s2.model()
+            if os.environ.get('PYVC_DEBUG_SMALL'):
+                open(os.environ['PYVC_DEBUG_SMALL'], 'w').write(s2.to_smt2())
+            c, who = _confirm_sat(s2)
+            if c == 'sat':
+                return 'refuted', backend + '+small-prestate', s2.model()
+            if c == 'unsat' and not shape:
+                # the unrestricted small-input query is unsat for another solver: no information about the goal
+                continue
     if os.environ.get('PYVC_DEBUG'):
         print('DEBUG unknown; defs:', [d[0].decl().name() for d in all_defs], 'inputs:', [c.decl().name() for c in inputs])
         open('/tmp/unk_full.smt2', 'w').write(s2.to_smt2())
